@@ -17,7 +17,9 @@
 (* Numbers, Denote, Same are Convert's (exact limb arithmetic).            *)
 (*                                                                         *)
 (* Tier 1 (meaning), all on the text alone:                                *)
-(*   integers: IntDenote(printed text, radix of the format) = v            *)
+(*   integers: the printed text, read back as the SAME type in the radix   *)
+(*     of the format, denotes v or a number that type refuses (hex/octal   *)
+(*     print the object's bits; decimal: IntDenote(text, 10) = v)          *)
 (*   floating: the printed numeral P = m * unit (unit = 10^d or 2^e of the *)
 (*     last printed digit) satisfies |P - v| < unit ("within the printed   *)
 (*     precision"); when P carries at least RTDigits(type) significant     *)
@@ -163,8 +165,9 @@ SameNum(a, b) == \/ a.k = "nan" /\ b.k = "nan"
 TextDenotes(t, v, radix, body, pr, pw) ==
   LET T == TypeTab[t] IN
   IF T.kind = "int"
-  THEN LET dn == IntDenote(body, radix) IN
-       /\ v.k = "fin" /\ dn.k = "fin" /\ NumCmp(dn, v) = 0
+  THEN LET dn == IntDenote(body, radix) IN          \* read back as the SAME type: v, or a number the type refuses
+       /\ v.k = "fin" /\ dn.k = "fin"
+       /\ (NumCmp(dn, v) = 0 \/ (radix # 10 /\ ~InIntRange(T, dn)))
        /\ (pr = "ok" => SameNum(pw, v))
   ELSE LET P == PrintedNum(body)
            x == PNum(P)
@@ -235,8 +238,11 @@ DesignPrintInt(t, v, f, left) ==
       wd    == FieldWidth(f)
       mag   == Shl(v.m, v.e)
       sign  == IF v.neg = 1 THEN <<45>> ELSE IF plus /\ T.sg = 1 /\ radix = 10 THEN <<43>> ELSE << >>
+      body  == IF v.neg = 1 /\ radix # 10
+               THEN Numeral(Sub(Pow2(T.bits), mag), radix)       \* hex / octal: the object's bits (two's complement)
+               ELSE sign \o Numeral(mag, radix)
   IN IF wd > left \/ radix = 0 THEN PObsRefused
-     ELSE PObs(PadL(sign \o Numeral(mag, radix), wd), left)
+     ELSE PObs(PadL(body, wd), left)
 
 (* M * 10^k *)
 Dec(M, k) == [k |-> "fin", neg |-> 0, m |-> M, e |-> 0, d |-> k]
@@ -315,8 +321,12 @@ DesignPrint(t, v, f, left) ==
   IF t = "c" THEN [PObsRefused EXCEPT !.r = "skip"]
   ELSE IF TypeTab[t].kind = "int" THEN DesignPrintInt(t, v, f, left) ELSE DesignPrintFlt(t, v, f, left)
 
-(* shortest text that can denote v in the radix: a smaller space obliges refusal *)
+(* shortest text that can denote v in the radix: a smaller space obliges refusal  *)
+(* (negative values in hex / octal: a numeral outside the type may be shorter, no  *)
+(* obligation is stated for them)                                                  *)
 MinLen(v, radix) == (IF v.neg = 1 THEN 1 ELSE 0) + Len(ToDigits(Shl(v.m, v.e), radix))
+MustRefuse(t, v, radix, left) ==
+  TypeTab[t].kind = "int" /\ t # "c" /\ (v.neg = 0 \/ radix = 10) /\ MinLen(v, radix) >= left
 
 ---------------------------------------------------------------------------
 (***************************************************************************)
@@ -373,6 +383,9 @@ SatLong(neg, mag) ==                       \* strtol saturates
 FObsRefused   == [r |-> "refused", q |-> "refused", used |-> 0, st |-> 0, w |-> 0, d |-> 0]
 FObs(n, w, d) == [r |-> "ok", q |-> "ok", used |-> n, st |-> 1, w |-> w, d |-> d]
 SmallInt(v)   == ToInt(Shl(v.m, v.e))      \* v in 0..ByteMax
+(* C store of a long into a byte-sized field: value modulo ByteMax + 1 *)
+StoreByte(v)  == LET r == DivSmall(Shl(v.m, v.e), ByteMax + 1).r IN
+                 IF v.neg = 1 /\ r # 0 THEN ByteMax + 1 - r ELSE r
 
 DesignFmtGet(s) ==
   LET n  == Len(s)
@@ -389,11 +402,11 @@ DesignFmtGet(s) ==
      ELSE IF lt \notin FmtLetters /\ (p1 > n \/ s[p1] \notin 48..57) THEN FObsRefused
      ELSE IF sw.used = 0 THEN FObsRefused
      ELSE IF NumCmp(wv, NatNum(0)) < 0 \/ NumCmp(wv, NatNum(ByteMax)) > 0 THEN FObsRefused
-     ELSE IF p3 > n \/ IsBlank(s[p3]) THEN FObs(p3 - 1, SmallInt(wv), IF lt = 102 THEN 6 ELSE 0)
+     ELSE IF p3 > n \/ IsBlank(s[p3]) THEN FObs(p3 - 1, StoreByte(wv), IF lt = 102 THEN 6 ELSE 0)
      ELSE IF s[p3] # 46 THEN FObsRefused
      ELSE IF sd.used = 0 THEN FObsRefused
      ELSE IF NumCmp(dv, NatNum(0)) < 0 \/ NumCmp(dv, NatNum(DecLimit)) >= 0 THEN FObsRefused
-     ELSE FObs(p3 + sd.used, SmallInt(wv), SmallInt(dv))
+     ELSE FObs(p3 + sd.used, StoreByte(wv), StoreByte(dv))
 
 RECURSIVE DesignFmtList(_, _, _)
 DesignFmtList(s, p, acc) ==               \* valfmt_parse: descriptions until the end of the text
@@ -443,7 +456,7 @@ DestLoop(s, sep, max, i, p, set, val) ==
                 p2 == p + sc.used
             IN IF NumCmp(v, NatNum(0)) < 0 \/ NumCmp(v, NatNum(ByteMax)) > 0 THEN DObsRefused(p2 - 1)
                ELSE LET set2 == Append(set, i)
-                        val2 == [val EXCEPT ![i] = SmallInt(v)]
+                        val2 == [val EXCEPT ![i] = StoreByte(v)]
                     IN IF p2 > Len(s) \/ IsBlank(s[p2]) \/ sep # s[p2]
                        THEN [r |-> "ok", used |-> p2 - 1, set |-> set2, val |-> val2]
                        ELSE DestLoop(s, sep, max, i + 1, p2 + 1, set2, val2)
@@ -500,13 +513,15 @@ ConvVecTarget == [int8 |-> "b", uint8 |-> "y", int16 |-> "n", uint16 |-> "q", in
 VObsRefused == [r |-> "refused", q |-> "refused", ws |-> << >>, rem |-> 0]
 VObs(ws)    == [r |-> "ok", q |-> "ok", ws |-> ws, rem |-> 0]
 DesignVec(api, sk, src, dk, dst, vs) ==
-  CASE sk = "scalar" -> LET cv == ConverterOf(api, src) IN
+  CASE sk = "scalar" /\ dk = "scalar" ->                      \* plain scalar conversion (Convert's design)
+         LET d == Design(api, src, dst, vs[1]) IN IF d.r = "ok" THEN VObs(<<Canon(d.w)>>) ELSE VObsRefused
+    [] sk = "scalar" -> LET cv == ConverterOf(api, src) IN
                         IF dk = "vec" /\ ((cv # "none" /\ dst = ConvVecTarget[cv]) \/ (api = "value" /\ dst = src /\ src # "l"))
                         THEN VObs(vs) ELSE VObsRefused
     [] sk = "vec"    -> IF src = "l" THEN VObsRefused
                         ELSE IF dk = "gen" \/ (dk = "vec" /\ dst = src) THEN VObs(vs) ELSE VObsRefused
-    [] sk = "array"  -> IF src = "l" THEN VObsRefused
-                        ELSE IF dk = "gen" \/ (dk = "vec" /\ dst = src) THEN VObs(vs) ELSE VObsRefused
+    [] sk = "array"  -> IF src = "l" THEN (IF dk = "gen" THEN VObs(vs) ELSE VObsRefused)      \* content without traits
+                        ELSE IF dk = "vec" /\ dst = src THEN VObs(vs) ELSE VObsRefused        \* (typed content -> '@': BadType)
     [] OTHER         -> VObsRefused
 
 (* admissible result per element; an element without one obliges refusal *)
@@ -534,8 +549,7 @@ PrintNum(api, t, v, f, left) ==
   obs' = [a |-> "print",
           arg |-> [api |-> api, src |-> t, v |-> Canon(v), flags |-> f.flags, width |-> f.width, dec |-> f.dec, left |-> left],
           exp |-> [design |-> DesignPrint(t, v, f, left),
-                   must |-> IF TypeTab[t].kind = "int" /\ t # "c" /\ MinLen(v, FmtRadix(f.flags)) >= left
-                            THEN "refuse" ELSE "any"]]
+                   must |-> IF MustRefuse(t, v, FmtRadix(f.flags), left) THEN "refuse" ELSE "any"]]
 
 FmtGet(api, chars) ==
   obs' = [a |-> "fmt", arg |-> [api |-> api, chars |-> chars],
@@ -565,7 +579,8 @@ RText(dst, base, chars, lo, hi) ==
 
 Vec(api, sk, src, dk, dst, vs) ==
   obs' = [a |-> "vec", arg |-> [api |-> api, sk |-> sk, src |-> src, dk |-> dk, dst |-> dst, vs |-> [i \in 1..Len(vs) |-> Canon(vs[i])]],
-          exp |-> [allowed |-> VecAllowed(src, dk, dst, vs), design |-> DesignVec(api, sk, src, dk, dst, vs)]]
+          exp |-> [allowed |-> VecAllowed(src, dk, dst, vs),
+                   design |-> DesignVec(api, sk, src, dk, dst, [i \in 1..Len(vs) |-> Canon(vs[i])])]]
 
 (* invariants: Tier 2 implies Tier 1 *)
 XDesignSound ==
@@ -581,7 +596,7 @@ XDesignSound ==
 (* the design prints whenever the shortest numeral fits (not vacuous) *)
 XDesignUseful ==
   (obs.a = "print" /\ obs.exp.design.r = "refused" /\ TypeTab[obs.arg.src].kind = "int" /\ obs.arg.src # "c"
-     /\ (obs.arg.flags % 16) \in {0, 1, 2, 3}) =>
+     /\ (obs.arg.flags % 16) \in {0, 1, 2, 3} /\ (obs.arg.v.neg = 0 \/ FmtRadix(obs.arg.flags) = 10)) =>
        LET ml == MinLen(obs.arg.v, FmtRadix(obs.arg.flags)) IN
        \/ ml >= obs.arg.left \/ obs.arg.width >= obs.arg.left
        \/ (HasBit(obs.arg.flags, 256) /\ ml + 1 >= obs.arg.left)
